@@ -128,7 +128,7 @@ fn tracker_consistent(model: &Model, step: usize, extra_live: u64) -> Result<(),
     // exactly the values of the reference map are alive (type 0 is counted separately)
     let mut want: Vec<(u8, u64)> = model
         .iter()
-        .filter(|((t, _), _)| *t != 0)
+        .filter(|((t, _), _)| *t != 0 && *t != 5)
         .map(|((t, _), v)| (*t, *v))
         .collect();
     want.sort();
@@ -277,7 +277,7 @@ impl Prop for C09 {
                 MapOp::InsertOverBomb { t, v } => {
                     let id = C09::fresh_value(&model, t, v);
                     let old = model.get(&(t, 0)).cloned();
-                    let arm = t >= 2 && old.is_some();
+                    let arm = (2..=4).contains(&t) && old.is_some();
                     if arm {
                         BOMB.with(|b| b.set(Some((t, old.unwrap()))));
                     }
@@ -613,7 +613,7 @@ macro_rules! named {
         }
     )*};
 }
-named!(Z, B1, W8, Big, Heap);
+named!(Z, B1, W8, Big, Heap, Plain);
 
 struct HMetaS<'a>(shred::cell::AtomicRef<'a, dyn Named + 'static>);
 struct HMetaX<'a>(shred::cell::AtomicRefMut<'a, dyn Named + 'static>);
